@@ -316,6 +316,7 @@ func blockTable(tr *trace.Buf) {
 			}
 			var cur *seg
 			var dcur *seg
+			var row []byte
 			for v := lo; v < hi; v++ {
 				b := []byte{byte(v >> 16), byte(v >> 8), byte(v)}
 				p := misc.VerifBinToMnemonic(b)
@@ -335,12 +336,31 @@ func blockTable(tr *trace.Buf) {
 					segs[w] = append(segs[w], seg{v, v, w1, w2})
 					cur = &segs[w][len(segs[w])-1]
 				}
-				// decode direction: word pair (v>>12, v&4095) -> bytes
-				q := qrl.WordList[v>>12] + " " + qrl.WordList[v&4095]
-				d := misc.VerifMnemonicToBin(q)
+				// decode direction: word pair (v>>12, v&4095) -> bytes. mnemonicToBin rebuilds its 4096-entry
+				// lookup on every call, so the 2^24 pairs are decoded 4096 at a time: one phrase
+				// "w1 x0 w1 x1 .. w1 x4095" per first word (pairs inside a phrase), and on its own as a
+				// two-word phrase (the codec's tail path) for every 509th pair and the ends of every run
+				if v&4095 == 0 || row == nil {
+					var sb strings.Builder
+					for k := 0; k < 4096; k++ {
+						if k > 0 {
+							sb.WriteByte(' ')
+						}
+						sb.WriteString(qrl.WordList[v>>12])
+						sb.WriteByte(' ')
+						sb.WriteString(qrl.WordList[k])
+					}
+					row = misc.VerifMnemonicToBin(sb.String())
+				}
 				b0, b1, b2 := -1, -1, -1
-				if len(d) == 3 {
-					b0, b1, b2 = int(d[0]), int(d[1]), int(d[2])
+				if k := v & 4095; len(row) == 3*4096 {
+					b0, b1, b2 = int(row[3*k]), int(row[3*k+1]), int(row[3*k+2])
+				}
+				if v%509 == 0 || v&4095 == 0 || v&4095 == 4095 || v&255 == 0 || v&255 == 255 {
+					d := misc.VerifMnemonicToBin(qrl.WordList[v>>12] + " " + qrl.WordList[v&4095])
+					if len(d) != 3 || int(d[0]) != b0 || int(d[1]) != b1 || int(d[2]) != b2 {
+						b0, b1, b2 = -1, -1, -1 // the two paths disagree: the entry is reported as undecodable
+					}
 				}
 				key := b0<<8 | b1
 				if dcur != nil && dcur.w1 == key && dcur.w2lo+(v-dcur.lo) == b2 && b0 >= 0 {
